@@ -1113,7 +1113,7 @@ int Interpret::interpFile(FILE* in) {
     Smt2newContext context(in);
     int rval = osmt_yyparse(&context);
 
-    if (rval != 0) return rval;
+    if (rval != 0) { _okStatus = false; return rval; }
 
     const ASTNode* r = context.getRoot();
     execute(r);
@@ -1124,7 +1124,7 @@ int Interpret::interpFile(char *content){
     Smt2newContext context(content);
     int rval = osmt_yyparse(&context);
 
-    if (rval != 0) return rval;
+    if (rval != 0) { _okStatus = false; return rval; }
     const ASTNode* r = context.getRoot();
     execute(r);
     return rval;
